@@ -18,6 +18,10 @@ const Property = "C02"
 type Step struct {
 	S int `json:"s"`
 	E int `json:"e"`
+	// Pre: single samples appended to the current view before it is sliced, so
+	// that the parent may end in a partial frame (its per-channel length then
+	// counts the partly filled frame).
+	Pre int `json:"pre,omitempty"`
 }
 
 type Case struct {
@@ -69,14 +73,32 @@ func run[T signal.SignalTypes](c *Case) (res kit.Result) {
 	root := kit.Root[T](C, c.Kr)
 	model := kit.RootModel[T](C, c.Kr)
 	cur := root
-	// model of the current view, in frames
+	// model of the current view, in frames; extra = samples of a partly filled last frame
 	off, ln, cp := 0, c.Kr, c.Kr
+	extra := 0
 	depth := 0
 	stamp := 0
 	for si, st := range c.Steps {
-		what := fmt.Sprintf("step %d Slice(%d,%d) on view(off=%d,len=%d,cap=%d frames, %d ch)", si, st.S, st.E, off, ln, cp, C)
+		if st.Pre < 0 || st.Pre > 64 {
+			return kit.Result{}
+		}
+		for k := 0; k < st.Pre; k++ {
+			if C*ln+extra < C*cp {
+				v := T(91 + k%9)
+				cur.AppendSample(v)
+				model[C*(off+ln)+extra] = v
+				extra++
+				if extra == C {
+					ln, extra = ln+1, 0
+				}
+			}
+		}
+		if extra > 0 {
+			res.Class("parentEndsInPartialFrame")
+		}
+		what := fmt.Sprintf("step %d Slice(%d,%d) on view(off=%d,len=%d frames+%d samples,cap=%d frames, %d ch)", si, st.S, st.E, off, ln, extra, cp, C)
 		parentHdr := kit.HdrOf(cur)
-		if want := kit.ModelHdr(C, C*ln, C*cp, bits); parentHdr != want {
+		if want := kit.ModelHdr(C, C*ln+extra, C*cp, bits); parentHdr != want {
 			res.Failf("%s: parent header %+v, want %+v", what, parentHdr, want)
 			return
 		}
@@ -149,7 +171,7 @@ func run[T signal.SignalTypes](c *Case) (res kit.Result) {
 				return
 			}
 			// the parent sees it at frame S+i of the same channel, if inside its length
-			if st.S+i < ln {
+			if C*(st.S+i)+ch < C*ln+extra {
 				if got := cur.Sample(C*(st.S+i) + ch); !kit.Same(got, v) {
 					res.Failf("%s: wrote %s through child (ch %d, frame %d); parent frame %d reads %s", what, kit.Str(v), ch, i, st.S+i, kit.Str(got))
 					return
@@ -192,9 +214,15 @@ func run[T signal.SignalTypes](c *Case) (res kit.Result) {
 			proot := kit.Root[T](C, c.Kr)
 			pcur := proot
 			for _, ps := range c.Steps[:si] {
+				for k := 0; k < ps.Pre; k++ {
+					pcur.AppendSample(T(91 + k%9))
+				}
 				if 0 <= ps.S && ps.S <= ps.E && ps.E <= pcur.Capacity() {
 					pcur = pcur.Slice(ps.S, ps.E)
 				}
+			}
+			for k := 0; k < st.Pre; k++ {
+				pcur.AppendSample(T(91 + k%9))
 			}
 			pchild := pcur.Slice(st.S, st.E)
 			ph, ch := kit.HdrOf(pcur), kit.HdrOf(pchild)
@@ -221,7 +249,7 @@ func run[T signal.SignalTypes](c *Case) (res kit.Result) {
 				return
 			}
 		}
-		cur, off, ln, cp = child, coff, cln, ccp
+		cur, off, ln, cp, extra = child, coff, cln, ccp, 0
 	}
 	return
 }
@@ -233,6 +261,7 @@ func FP(c *Case) uint64 {
 	for _, s := range c.Steps {
 		h.Int(s.S)
 		h.Int(s.E)
+		h.Int(s.Pre)
 	}
 	return h.Sum()
 }
@@ -279,7 +308,7 @@ func Gen(t *rapid.T) *Case {
 	for i := 0; i < nsteps; i++ {
 		if rapid.IntRange(0, 2).Draw(t, "bad") == 0 {
 			s, e := genBad(t, c.C, cp)
-			c.Steps = append(c.Steps, Step{s, e})
+			c.Steps = append(c.Steps, Step{S: s, E: e})
 			if 0 <= s && s <= e && e <= cp { // a "bad" draw that happens to be valid
 				ln, cp = e-s, cp-s
 			}
@@ -296,7 +325,11 @@ func Gen(t *rapid.T) *Case {
 			s = rapid.IntRange(0, cp).Draw(t, "s")
 			e = rapid.IntRange(s, cp).Draw(t, "e")
 		}
-		c.Steps = append(c.Steps, Step{s, e})
+		st := Step{S: s, E: e}
+		if rapid.IntRange(0, 3).Draw(t, "preSel") == 0 && i > 0 {
+			st.Pre = rapid.IntRange(1, 2*c.C).Draw(t, "pre")
+		}
+		c.Steps = append(c.Steps, st)
 		ln, cp = e-s, cp-s
 	}
 	return c
